@@ -401,6 +401,9 @@ func (w *World) drawService(t *rapid.T, cfg *Cfg) *structs.NodeService {
 	if chance(t, "tagoverride", 10) {
 		svc.EnableTagOverride = true
 	}
+	if chance(t, "svclocality", 10) {
+		svc.Locality = drawLocality(t)
+	}
 	if !cfg.Connect {
 		if chance(t, "consulsvc", 4) {
 			svc.Service, svc.ID = "consul", "consul"
@@ -484,6 +487,13 @@ func (w *World) drawCheck(t *rapid.T, node, peer string, svc *structs.NodeServic
 	return c
 }
 
+func drawLocality(t *rapid.T) *structs.Locality {
+	l := pick(t, "locality", []structs.Locality{
+		{Region: "us-west-1", Zone: "us-west-1a"}, {Region: "us-west-1", Zone: "us-west-1b"}, {Region: "us-east-1"},
+	})
+	return &l
+}
+
 // DrawRegister draws a catalog registration shaped as Catalog.Register leaves it before raft apply.
 func (w *World) DrawRegister(t *rapid.T, cfg *Cfg) *Op {
 	peer := ""
@@ -521,6 +531,8 @@ func (w *World) DrawRegister(t *rapid.T, cfg *Cfg) *Op {
 		}
 	case 5:
 		req.SkipNodeUpdate = true
+	case 6, 7:
+		req.Locality = drawLocality(t)
 	}
 	if chance(t, "withsvc", 70) {
 		req.Service = w.drawService(t, cfg)
